@@ -69,16 +69,44 @@ LET = {
     "bs": (lambda: ops.BSgate(0.5, 0.3), 2),
     "r": (lambda: ops.Rgate(0.6), 1),
     "s2": (lambda: ops.S2gate(0.08, 0.5), 2),
+    "i3": (lambda: ops.Interferometer(U3), 3),
 }
 ALPH = {
     "gaussian_unitary": ["D", "D.H", "S", "S.H", "R", "R.H", "BS", "BS.H", "MZ", "MZ.H", "sMZ", "S2", "S2.H", "I1", "I2", "I3", "GT1", "GT2", "GT3", "X", "CX"],
     "passive": ["R", "R.H", "BS", "BS.H", "MZ", "MZ.H", "sMZ", "I1", "I2", "I3", "Loss", "PC1", "PC2"],
     "gaussian_merge": ["D", "S", "S.H", "R", "BS", "BS.H", "MZ", "S2", "I2", "GT2", "X"],
     "gaussian_merge_hybrid": ["d", "s", "r", "bs", "s2", "K", "V", "CK"],
+    "gaussian_merge_front": ["d", "r", "bs", "i3"],
 }
 # (register size, index set): ordered tuples are drawn from the index set
 INDEX_SETS = [(3, (0, 1, 2)), (10, (1, 9)), (9, (8, 0)), (10, (3, 7, 9)), (11, (0, 10, 2)), (17, (16, 8, 1))]
 FOCK_CUTOFF = 9
+
+
+class Hang(Exception):
+    pass
+
+
+class time_limit:
+    """a compile that does not return within the limit is a violation (the worker's alarm clock)"""
+
+    def __init__(self, seconds):
+        self.seconds = seconds
+
+    def _raise(self, *a):
+        raise Hang(f"no result after {self.seconds} s")
+
+    def __enter__(self):
+        import signal
+
+        self._old = signal.signal(signal.SIGALRM, self._raise)
+        signal.setitimer(signal.ITIMER_REAL, self.seconds)
+
+    def __exit__(self, *a):
+        import signal
+
+        signal.setitimer(signal.ITIMER_REAL, 0)
+        signal.signal(signal.SIGALRM, self._old)
 
 
 def letters(compiler, idx):
@@ -191,12 +219,21 @@ def minimise(compiler, n, seq):
     return seq
 
 
-def fock_state(prog, n):
-    eng = sf.Engine("fock", backend_options={"cutoff_dim": FOCK_CUTOFF})
+def fock_state(circuit, n):
+    """density matrix after applying the circuit to a PURE product of different coherent states (passive gates in a wrong
+    order are invisible on the vacuum; displacing through the backend API keeps the fast state-vector mode)"""
+    from strawberryfields.backends import load_backend
+    from strawberryfields.compilers import compiler_db
+
+    b = load_backend("fock")
     with warnings.catch_warnings():
         warnings.simplefilter("ignore")
-        st = eng.run(prog).state
-    return st
+        b.begin_circuit(n, cutoff_dim=FOCK_CUTOFF, pure=True)
+        for i in range(n):
+            b.displacement(0.25 + 0.1 * i, 0.4 * i, i)
+        for cmd in compiler_db["fock"]().decompose(list(circuit)):
+            cmd.op.apply(cmd.reg, b)
+        return b.state()
 
 
 def check_hybrid(n, seq, res):
@@ -206,9 +243,13 @@ def check_hybrid(n, seq, res):
     try:
         with warnings.catch_warnings():
             warnings.simplefilter("ignore")
-            out = prog.compile(compiler="gaussian_merge")
+            with time_limit(20):
+                out = prog.compile(compiler="gaussian_merge")
     except CircuitError:
         res.stats["circuit_error"] += 1
+        return False
+    except Hang as e:
+        res.violation("C11|gaussian_merge|does-not-return|hybrid", f"compiling [{fmt(seq)}] for gaussian_merge: {e}", case)
         return False
     except Exception as e:
         res.violation(f"C11|gaussian_merge|raises|{type(e).__name__}|hybrid", f"compiling [{fmt(seq)}] for gaussian_merge raised {type(e).__name__}: {e}", case)
@@ -221,7 +262,7 @@ def check_hybrid(n, seq, res):
         res.violation("C11|gaussian_merge|non-gaussian-commands", f"compiled [{fmt(seq)}] has non-Gaussian commands {out_ng}, source {src_ng}", case)
         return False
     try:
-        a, b = fock_state(prog, n), fock_state(out, n)
+        a, b = fock_state(prog.circuit, n), fock_state(out.circuit, n)
         da, db = (a.dm(), b.dm())
     except Exception as e:
         res.violation(f"C11|gaussian_merge|run-raises|{type(e).__name__}", f"running [{fmt(seq)}] or its compiled form raised {type(e).__name__}: {e}", case)
@@ -238,13 +279,13 @@ def check_hybrid(n, seq, res):
 def work(task):
     kind, compiler, n, idx, prefix, L = task
     res = Res()
-    alpha = letters(compiler if kind == "gauss" else "gaussian_merge_hybrid", idx)
+    alpha = letters(compiler if kind == "gauss" else ("gaussian_merge_front" if kind == "front" else "gaussian_merge_hybrid"), idx)
     for k in range(0, L - len(prefix) + 1):
         for tail in itertools.product(alpha, repeat=k):
             seq = tuple(prefix) + tail
             if not seq:
                 continue
-            if kind == "hybrid" and not any(l in ("K", "V", "CK") for l, _ in seq):
+            if kind in ("hybrid", "front") and not any(l in ("K", "V", "CK") for l, _ in seq):
                 continue
             res.n += 1
             nt = check_gaussian(compiler, n, seq, res) if kind == "gauss" else check_hybrid(n, seq, res)
@@ -274,6 +315,13 @@ def run(ctx):
     if not quick:
         for a in letters("gaussian_merge_hybrid", (0, 1, 2)):
             tasks.append(("hybrid", "gaussian_merge", 3, (0, 1, 2), (a,), 3))
+    # three modes with a two-mode non-Gaussian gate in front of Gaussian gates (length 4; thorough 5 with the full front alphabet)
+    front = letters("gaussian_merge_front", (0, 1, 2))
+    if quick:
+        front = [l for l in front if l[0] != "i3" or l[1] == (0, 1, 2)]
+    for ck in itertools.permutations((0, 1, 2), 2):
+        for a in front:
+            tasks.append(("front", "gaussian_merge", 3, (0, 1, 2), (("CK", ck), a), 4 if quick else 5))
     for r in ctx.pmap(work, tasks, chunksize=2):
         ctx.add(r)
         if ctx.time_left() < 0:
